@@ -75,15 +75,16 @@ M('C18', 'mergetool-default-without-flag', MT,
   "    if set_default:\n        # Set default tool to webapp\n        check_call(cmd + ['merge.tool', 'nbdime'])",
   "    check_call(cmd + ['merge.tool', 'nbdime'])", 'R18.1')
 M('C18', 'enable-writes-foreign-key', DDR,
-  "    gitattributes = locate_gitattributes(scope)\n    if gitattributes is None:\n        assert scope is None, \"No gitattributes found for scope: %s\" % scope\n        print(\"No .git directory in %s, skipping git attributes\" % os.curdir, file=sys.stderr)\n        return\n\n    if os.path.exists(gitattributes):\n        with io.open(gitattributes, encoding=\"utf8\") as f:\n            if 'diff=jupyternotebook'",
-  "    check_call(cmd + ['core.attributesfile', '~/.gitattributes'])\n    gitattributes = locate_gitattributes(scope)\n    if gitattributes is None:\n        assert scope is None, \"No gitattributes found for scope: %s\" % scope\n        print(\"No .git directory in %s, skipping git attributes\" % os.curdir, file=sys.stderr)\n        return\n\n    if os.path.exists(gitattributes):\n        with io.open(gitattributes, encoding=\"utf8\") as f:\n            if 'diff=jupyternotebook'", 'R18.1')
+  "    gitattributes = locate_gitattributes(scope)\n    if gitattributes is None:\n        assert scope is None, \"No gitattributes found for scope: %s\" % scope\n        print(\"No .git directory in %s, skipping git attributes\" % os.curdir, file=sys.stderr)\n        return\n\n    if os.path.exists(gitattributes):\n        with io.open(gitattributes, encoding=\"utf8\") as f:\n",
+  "    check_call(cmd + ['core.attributesfile', '~/.gitattributes'])\n    gitattributes = locate_gitattributes(scope)\n    if gitattributes is None:\n        assert scope is None, \"No gitattributes found for scope: %s\" % scope\n        print(\"No .git directory in %s, skipping git attributes\" % os.curdir, file=sys.stderr)\n        return\n\n    if os.path.exists(gitattributes):\n        with io.open(gitattributes, encoding=\"utf8\") as f:\n", 'R18.1')
 M('C18', 'attributes-mode-w', DRV, "io.open(gitattributes, 'a', encoding=\"utf8\")", "io.open(gitattributes, 'w', encoding=\"utf8\")", 'R18.4')
-M('C18', 'attributes-wrong-marker-tested', DDR, "if 'diff=jupyternotebook' in f.read():", "if 'nbdime' in f.read():", 'R18.4')
+M('C18', 'attributes-wrong-marker-tested', DDR, "            if any('diff=jupyternotebook' in line.split()", "            if any('nbdime' in line.split()", 'R18.4')
+M('C18', 'attributes-marker-substring-test', DDR, "            if any('diff=jupyternotebook' in line.split()\n                   for line in f.read().splitlines()\n                   if not line.lstrip().startswith('#')):", "            if 'diff=jupyternotebook' in f.read():", 'R18.4')
 M('C18', 'attributes-two-lines', DRV, "f.write(u'\\n*.ipynb\\tmerge=jupyternotebook\\n')",
   "f.write(u'\\n*.ipynb\\tmerge=jupyternotebook\\n*.ipynb\\tdiff=jupyternotebook\\n')", 'R18.4')
 M('C18', 'attributes-append-without-test', DDR,
-  "            if 'diff=jupyternotebook' in f.read():\n                # already written, nothing to do\n                return",
-  "            if 'diff=jupyternotebook' in f.read():\n                # already written\n                pass", 'R18.4')
+  "                   if not line.lstrip().startswith('#')):\n                # already written, nothing to do\n                return",
+  "                   if not line.lstrip().startswith('#')):\n                # already written\n                pass", 'R18.4')
 M('C18', 'disable-removes-wrong-section', DRV, "'--remove-section', 'merge.jupyternotebook'", "'--remove-section', 'merge'", 'R18.2')
 M('C18', 'driver-section-mismatch', DDR, "'--remove-section', 'diff.jupyternotebook'", "'--remove-section', 'difftool.nbdime'", 'R18.3')
 M('C18', 'config-git-skips-mergetool', MAIN, "            diff_tool(args) or\n            merge_tool(args)\n", "            diff_tool(args)\n", 'R18.5')
@@ -519,8 +520,9 @@ T('C04', 'twin-metadata-dict-call-free', STR, '                cell[k] = {\n    
   '                cell[k] = {"local_metadata": lcell[k], "remote_metadata": rcell[k], "note": "conflict"}')
 
 M('C20', 'store-opens-before-parsing', SRV,
-  "        body = json.loads(escape.to_unicode(self.request.body))\n        merged = body['merged']\n        merged_nb = nbformat.from_dict(merged)\n\n        # Somehow store unsolved conflicts?\n        # conflicts = body['conflicts']\n\n        with io.open(path, 'w', encoding='utf8') as f:\n            nbformat.write(merged_nb, f)",
-  "        with io.open(path, 'w', encoding='utf8') as f:\n            body = json.loads(escape.to_unicode(self.request.body))\n            merged = body['merged']\n            merged_nb = nbformat.from_dict(merged)\n            nbformat.write(merged_nb, f)", 'R20.7')
+  "        body = json.loads(escape.to_unicode(self.request.body))\n        merged = body['merged']\n",
+  "        with io.open(path, 'w', encoding='utf8') as f0:\n            body = json.loads(escape.to_unicode(self.request.body))\n        merged = body['merged']\n", 'R20.7')
+M('C20', 'store-serialises-while-open', SRV, "        with io.open(path, 'w', encoding='utf8') as f:\n            f.write(text)", "        with io.open(path, 'w', encoding='utf8') as f:\n            nbformat.write(merged_nb, f)", 'R20.7')
 
 # ------------------------------------------------------------------------------------------ rules added after the independently seeded changes
 M('C08', 'status-is-a-count', APP, "    returncode = 1 if conflicted else 0", "    returncode = len(conflicted)", 'R08.1')
@@ -720,10 +722,10 @@ M('C16', 'lexer-from-codemirror-mode', PP, "        config.language = language_i
   "        config.language = language_info.get(\n            'pygments_lexer',\n            language_info.get('codemirror_mode', language_info.get('name', None))\n        )", 'R16.11')
 M('C16', 'surrogate-handlers-kept', UT, "        if errors == 'strict' or errors.startswith('surrogate'):", "        if errors == 'strict':", 'R16.12')
 T('C16', 'twin-raising-handlers-listed', UT, "        if errors == 'strict' or errors.startswith('surrogate'):", "        if errors in ('strict', 'surrogateescape', 'surrogatepass'):")
-M('C17', 'only-enoent-counts-as-deleted', GF, "                except IOError:\n                    return EXPLICIT_MISSING_FILE", "                except FileNotFoundError:\n                    return EXPLICIT_MISSING_FILE", 'R17.8')
-T('C17', 'twin-oserror-spelled-out', GF, "                except IOError:\n                    return EXPLICIT_MISSING_FILE", "                except OSError:\n                    return EXPLICIT_MISSING_FILE")
+M('C17', 'only-enoent-counts-as-deleted', GF, "                except IOError:\n                    # (also when the filter cannot open a deleted file)\n                    return EXPLICIT_MISSING_FILE", "                except FileNotFoundError:\n                    return EXPLICIT_MISSING_FILE", 'R17.8')
+T('C17', 'twin-oserror-spelled-out', GF, "                except IOError:\n                    # (also when the filter cannot open a deleted file)\n                    return EXPLICIT_MISSING_FILE", "                except OSError:\n                    return EXPLICIT_MISSING_FILE")
 M('C17', 'blob-streams-cached', GF, "            f = BlobWrapper(blob.data_stream.read().decode('utf-8'))\n", "            f = _blob_cache.get(blob.hexsha)\n            if f is None:\n                f = _blob_cache[blob.hexsha] = BlobWrapper(blob.data_stream.read().decode('utf-8'))\n", 'R17.9',
-  edits=[(GF, "def _get_diff_entry_stream(path, blob, ref_name, repo_dir):", "_blob_cache = {}\n\n\ndef _get_diff_entry_stream(path, blob, ref_name, repo_dir):")])
+  edits=[(GF, "def _get_diff_entry_stream(path, blob, ref_name, repo_dir, missing=False):", "_blob_cache = {}\n\n\ndef _get_diff_entry_stream(path, blob, ref_name, repo_dir, missing=False):")])
 M('C18', 'xdg-default-via-dict-get', UT, "            if os.environ.get('XDG_CONFIG_HOME'):\n                gitattributes = os.path.expandvars('$XDG_CONFIG_HOME/git/attributes')\n            else:\n                gitattributes = os.path.expanduser('~/.config/git/attributes')",
   "            gitattributes = os.path.join(os.environ.get('XDG_CONFIG_HOME', os.path.expanduser('~/.config')), 'git', 'attributes')", 'R18.9')
 M('C18', 'shared-git-config-vector', DDR, "def disable(scope=None):\n    \"\"\"Disable nbdime git diff drivers\"\"\"\n    cmd = ['git', 'config']\n    if scope:\n        cmd.append('--%s' % scope)",
@@ -781,3 +783,65 @@ M('C09', 'attachment-conflicts-keyed-without-combining', STR, '    ldiffs_by_key
 T('C09', 'twin-attachment-conflicts-combined-first', STR, '    ldiffs_by_key = {d.key: d for d in combine_patches(local_conflict_diffs)}', '    local_conflict_diffs = combine_patches(local_conflict_diffs)\n    ldiffs_by_key = {d.key: d for d in local_conflict_diffs}')
 M('C05', 'chunk-sanity-guard-tests-per-side-list', 'nbdime/merging/chunks.py', '    if base or any(split_diffs):', '    if base or split_diffs:', 'R05.7')
 T('C05', 'twin-chunk-sanity-guard-any-diffs', 'nbdime/merging/chunks.py', '    if base or any(split_diffs):', '    if base or any(d for d in diffs):')
+
+# ---- session 4, round-4 triage
+GITF = 'nbdime/gitfiles.py'
+_INLINE_DIFF = ("    # Get tree/index for base\n    if ref_base == GitRefIndex:\n        tree_base = repo.index\n    else:\n        tree_base = repo.commit(ref_base).tree\n\n"
+                "    if ref_remote in (GitRefWorkingTree, GitRefIndex):\n        diff = tree_base.diff(ref_remote, paths)\n    else:\n        # Get remote tree and diff against base:\n"
+                "        tree_remote = repo.commit(ref_remote).tree\n        diff = tree_base.diff(tree_remote, paths)\n")
+_HELPER = ("def _diff_entries(repo, ref_base, ref_remote, paths=None):\n    if ref_base == GitRefIndex:\n        tree_base = repo.index\n    else:\n        tree_base = repo.commit(ref_base).tree\n%s"
+           "    if ref_remote in (GitRefWorkingTree, GitRefIndex):\n        return tree_base.diff(ref_remote, paths)\n    tree_remote = repo.commit(ref_remote).tree\n    return tree_base.diff(tree_remote, paths)\n\n\n")
+T('C17', 'twin-diff-moved-into-helper', GITF, _INLINE_DIFF, '    diff = _diff_entries(repo, ref_base, ref_remote, paths)\n',
+  edits=[(GITF, 'def changed_notebooks(ref_base, ref_remote, paths=None, repo_dir=None):', _HELPER % '' + 'def changed_notebooks(ref_base, ref_remote, paths=None, repo_dir=None):')])
+M('C17', 'diff-helper-empty-when-index-clean', GITF, _INLINE_DIFF, '    diff = _diff_entries(repo, ref_base, ref_remote, paths)\n', 'R17.3',
+  edits=[(GITF, 'def changed_notebooks(ref_base, ref_remote, paths=None, repo_dir=None):',
+          _HELPER % "    if ref_remote == GitRefIndex and not repo.is_dirty(working_tree=False):\n        return ()\n" + 'def changed_notebooks(ref_base, ref_remote, paths=None, repo_dir=None):')])
+M('C17', 'inline-diff-reset-when-index-clean', GITF, "        diff = tree_base.diff(tree_remote, paths)\n", "        diff = tree_base.diff(tree_remote, paths)\n    if ref_remote == GitRefIndex and not repo.is_dirty(working_tree=False):\n        diff = ()\n", 'R17.3')
+M('C01', 'mime-bundle-differ-drops-one-sided-keys', NBD, "        add_mime_diff(key, avalue, bvalue, di)\n\n    for key in sorted(bkeys - akeys):\n        di.add(key, b[key])\n", "        add_mime_diff(key, avalue, bvalue, di)\n\n", 'R01.13')
+M('C02', 'dict-differ-drops-removed-keys', GEN, '    for key in sorted(akeys - bkeys):\n        if not _is_ignored(config, "/".join((path, key))):\n            di.remove(key)\n', '', 'R02.14')
+M('C01', 'nbpatch-skips-write-for-empty-diff', 'nbdime/nbpatchapp.py', "    if output_filename:\n        nbformat.write(after, output_filename)", "    if output_filename:\n        if not diff and os.path.exists(output_filename):\n            return 0\n        nbformat.write(after, output_filename)", 'R01.14')
+T('C01', 'twin-nbpatch-writes-then-returns', 'nbdime/nbpatchapp.py', "    if output_filename:\n        nbformat.write(after, output_filename)", "    if output_filename:\n        nbformat.write(after, output_filename)\n        return 0")
+M('C02', 'is-atomic-depth-cutoff', 'nbdime/diffing/config.py', "        try:\n            return self._atomic_paths[path]", "        if path is not None and path.count('/') > 64:\n            return True\n        try:\n            return self._atomic_paths[path]", 'R02.15')
+M('C10', 'strategy-gates-line-merge', MG, "            base_lines = base.splitlines(True)\n            _merge_strings.recursion = True\n            try:\n                decisions = _merge_lists(\n                    base_lines, local_diff, remote_diff,\n                    path, parent_decisions, strategies)\n            finally:\n                # Ensure recursion stops even in case of exceptions\n                _merge_strings.recursion = False",
+  "            base_lines = base.splitlines(True)\n            if strategy in ('use-local', 'use-remote') and len(base_lines) > 50:\n                decisions.conflict(path, local_diff, remote_diff, strategy)\n            else:\n                _merge_strings.recursion = True\n                try:\n                    decisions = _merge_lists(\n                        base_lines, local_diff, remote_diff,\n                        path, parent_decisions, strategies)\n                finally:\n                    _merge_strings.recursion = False", 'R10.8')
+M('C09', 'merged-notebook-post-processed', MNB, "    merged = apply_decisions(base, decisions)\n", "    merged = apply_decisions(base, decisions)\n    merged.metadata.pop('nbdime-conflicts', None)\n", 'R09.16')
+M('C05', 'merged-notebook-cleaned-by-helper', MNB, "    merged = apply_decisions(base, decisions)\n", "    merged = apply_decisions(base, decisions)\n    _strip(merged)\n", 'R05.8',
+  edits=[(MNB, 'def merge_notebooks(base, local, remote, args=None):', "def _strip(nb):\n    for c in nb.get('cells', []):\n        c.get('metadata', {}).pop('nbdime-conflicts', None)\n\n\ndef merge_notebooks(base, local, remote, args=None):")])
+T('C05', 'twin-merged-notebook-inspected-by-helper', MNB, "    merged = apply_decisions(base, decisions)\n", "    merged = apply_decisions(base, decisions)\n    _count(merged)\n",
+  edits=[(MNB, 'def merge_notebooks(base, local, remote, args=None):', "def _count(nb):\n    return len(nb.get('cells', []))\n\n\ndef merge_notebooks(base, local, remote, args=None):")])
+M('C03', 'combine-patches-fast-path', STR, '    patches = {}\n    newdiffs = []\n    for d in diffs:', '    if all(a.key <= b.key for a, b in zip(diffs, diffs[1:])):\n        return diffs\n    patches = {}\n    newdiffs = []\n    for d in diffs:', 'R03.25')
+M('C05', 'lone-side-constant-in-filter', STR, "                custom_diff = [op_removerange(key, 1)]", "                custom_diff = [e for d in decs if d.action == 'local_then_remote' for e in d.local_diff if e.op == DiffOp.ADDRANGE] + [op_removerange(key, 1)]", 'R05.9')
+M('C07', 'conflict-halves-cut-with-local-length', PP, "    local = local[:i+1]\n    remote = remote[:j+1]", "    end = len(local) - len(postlines)\n    local = local[:end]\n    remote = remote[:end]", 'R07.15')
+M('C08', 'stdout-handler-replace', UT, "errors='backslashreplace')", "errors='replace')", 'R08.11')
+M('C14', 'output-alignment-compares-display-metadata', NBD, '    handled = set(("output_type", "metadata", "execution_count"))', '    handled = set(("output_type",))\n    if ot == "execute_result":\n        handled.update(("metadata", "execution_count"))', 'R14.14')
+T('C14', 'twin-output-alignment-skip-set-built-later', NBD, '    handled = set(("output_type", "metadata", "execution_count"))', '    handled = set(("output_type",))\n    handled.update(("metadata", "execution_count"))')
+M('C15', 'clear-strategy-on-free-form-field', MNB, '            "/cells/*/execution_count": "clear",', '            "/cells/*/execution_count": "clear",\n            "/cells/*/metadata/execution": "clear",', 'R15.9')
+M('C15', 'ts-presence-test-with-in', 'packages/nbdime/src/diff/diffentries.ts', 'if (valueIn(key, keys)) {', 'if (key in base) {', 'R15.10')
+M('C16', 'item-printer-indexes-splitlines', PP, '        if "\\n" in vstr:\n            # Multiline strings', '        if vstr.splitlines()[0] != vstr:\n            # Multiline strings', 'R16.17')
+M('C16', 'helper-called-without-config', PP, "        pretty_print_item(k, v, oprefix, config)", "        pretty_print_item(k, v, oprefix)", 'R16.18')
+M('C19', 'subparsers-plain-class', ARGS, "class ConfigBackedParser(argparse.ArgumentParser):", "class ConfigBackedParser(argparse.ArgumentParser):\n    def add_subparsers(self, **kwargs):\n        kwargs.setdefault('parser_class', argparse.ArgumentParser)\n        return super().add_subparsers(**kwargs)\n", 'R19.10')
+M('C20', 'handler-params-class-level', SRV, "        self.params = params", "        self.params.update(params)", 'R20.13',
+  edits=[(SRV, "class NbdimeHandler(JupyterHandler):", "class NbdimeHandler(JupyterHandler):\n    params = {}\n")])
+M('C20', 'output-name-made-absolute', SRV, "def make_app(**params):", "def make_app(**params):\n    if params.get('outputfilename'):\n        params['outputfilename'] = os.path.abspath(params['outputfilename'])", 'R20.14')
+T('C20', 'twin-output-name-joined-onto-cwd-param', SRV, "def make_app(**params):", "def make_app(**params):\n    if params.get('outputfilename'):\n        params['outputfilename'] = os.path.join(params.get('cwd', os.curdir), params['outputfilename'])")
+M('C11', 'replace-of-possibly-absent-attachment', STR, "                custom_diff += [op_add(local_name, local)]", "                custom_diff += [op_replace(key, local)]", 'R11.10')
+M('C11', 'lifting-walks-path-forward', STR, "    for key in reversed(common_path[n:]):", "    for key in common_path[n:]:", 'R11.11')
+T('C11', 'twin-lifting-negative-step', STR, "    for key in reversed(common_path[n:]):", "    for key in common_path[n:][::-1]:")
+M('C04', 'tryresolve-implements-remove', DEC, '            elif strategy == "take-max":', '            elif strategy == "remove":\n                action = "remove"\n            elif strategy == "take-max":', 'R04.9')
+M('C04', 'placeholder-recognised-by-name', APP, "        for nb in (b, l, r):\n            if not (nb.cells or nb.metadata):\n                nb.nbformat_minor = min(minors)", "        for fn, nb in ((bfn, b), (lfn, l), (rfn, r)):\n            if fn == EXPLICIT_MISSING_FILE:\n                nb.nbformat_minor = min(minors)", 'R04.8')
+M('C13', 'varargs-helper-mutates-notebooks', MNB, "    # Compute notebook specific diffs\n", "    _touch(base, local, remote)\n    # Compute notebook specific diffs\n", 'R13.1',
+  edits=[(MNB, 'def decide_notebook_merge(base, local, remote, args=None):', "def _touch(*nbs):\n    for nb in nbs:\n        nb['nbformat_minor'] = 4\n\n\ndef decide_notebook_merge(base, local, remote, args=None):")])
+M('C18', 'attributes-rewritten-through-lossy-decode', 'nbdime/vcs/git/diffdriver.py', "    if os.path.exists(gitattributes):\n        with io.open(gitattributes, encoding=\"utf8\") as f:\n            # (only rule lines count: not a line that was commented out)\n            if any('diff=jupyternotebook' in line.split()\n                   for line in f.read().splitlines()\n                   if not line.lstrip().startswith('#')):\n                # already written, nothing to do\n                return\n    else:\n        ensure_dir_exists(os.path.dirname(gitattributes))\n\n    with io.open(gitattributes, 'a', encoding=\"utf8\") as f:\n        f.write(u'\\n*.ipynb\\tdiff=jupyternotebook\\n')",
+  "    _ensure(gitattributes, u'diff=jupyternotebook')", 'R18.4',
+  edits=[('nbdime/vcs/git/diffdriver.py', 'def enable(scope=None):', "def _ensure(path, attr):\n    content = u''\n    if os.path.exists(path):\n        with io.open(path, encoding='utf8', errors='replace') as f:\n            content = f.read()\n        if attr in content:\n            return\n    else:\n        ensure_dir_exists(os.path.dirname(path))\n    with io.open(path, 'w', encoding='utf8') as f:\n        f.write(content + u'\\n*.ipynb\\t' + attr + u'\\n')\n\n\ndef enable(scope=None):")])
+T('C18', 'twin-attributes-append-in-helper', 'nbdime/vcs/git/diffdriver.py', "    if os.path.exists(gitattributes):\n        with io.open(gitattributes, encoding=\"utf8\") as f:\n            # (only rule lines count: not a line that was commented out)\n            if any('diff=jupyternotebook' in line.split()\n                   for line in f.read().splitlines()\n                   if not line.lstrip().startswith('#')):\n                # already written, nothing to do\n                return\n    else:\n        ensure_dir_exists(os.path.dirname(gitattributes))\n\n    with io.open(gitattributes, 'a', encoding=\"utf8\") as f:\n        f.write(u'\\n*.ipynb\\tdiff=jupyternotebook\\n')",
+  "    _ensure(gitattributes, u'diff=jupyternotebook')",
+  edits=[('nbdime/vcs/git/diffdriver.py', 'def enable(scope=None):', "def _ensure(path, attr):\n    if os.path.exists(path):\n        with io.open(path, encoding='utf8') as f:\n            if attr in f.read():\n                return\n    else:\n        ensure_dir_exists(os.path.dirname(path))\n    with io.open(path, 'a', encoding='utf8') as f:\n        f.write(u'\\n*.ipynb\\t' + attr + u'\\n')\n\n\ndef enable(scope=None):")])
+
+M('C17', 'three-paths-base-none', ARGS, "            base, remote = 'HEAD', None", "            base = remote = None", 'R17.10')
+T('C17', 'twin-three-paths-base-head-two-statements', ARGS, "            base, remote = 'HEAD', None", "            base = 'HEAD'\n            remote = None")
+M('C17', 'filter-applied-outside-handler', GF, "                try:\n                    # We are diffing against working dir, so ensure we apply\n                    # any git filters before comparing:\n                    ret = apply_possible_filter(path)", "                ret = apply_possible_filter(path)\n                try:\n                    # We are diffing against working dir", 'R17.11')
+M('C17', 'filter-failure-propagates', 'nbdime/vcs/git/filter_integration.py', "        except CalledProcessError:\n            # Like git does for a filter that is not required: use the\n            # file as it is\n            return path", "        except ValueError:\n            return path", 'R17.11')
+M('C17', 'check-attr-without-double-dash', 'nbdime/vcs/git/filter_integration.py', "['git', 'check-attr', '-z', 'filter', '--', path]", "['git', 'check-attr', '-z', 'filter', path]", 'R17.12')
+M('C17', 'deleted-entry-read-from-disk', GF, "            entry.b_path, entry.b_blob, ref_remote, repo_dir,\n            missing=entry.deleted_file)", "            entry.b_path, entry.b_blob, ref_remote, repo_dir)", 'R17.13')
+T('C17', 'twin-deletion-by-change-type', GF, "            missing=entry.deleted_file)", "            missing=(entry.change_type == 'D'))")
